@@ -41,6 +41,10 @@ impl KeGroup for Curve25519 {
             .ok()
             .map(MontgomeryPoint)
             .filter(|pk| pk != &MontgomeryPoint::identity())
+            // Reject the points of small order (on the curve and on its twist): for exactly
+            // those, a multiple of the cofactor (here the clamped scalar 2^254) is the
+            // identity, which would force an all-zero Diffie-Hellman output.
+            .filter(|pk| pk.mul_clamped([0; 32]) != MontgomeryPoint::identity())
             .ok_or(InternalError::PointError)
     }
 
